@@ -80,6 +80,7 @@ def _expected(g, sol, ric, ext, eao):
 
 
 def _compare(sig, got, g, sol, opts):
+    M.sync_palette()
     ric, ext, eao = opts
     inp, tgt, iso = _expected(g, sol, ric, ext, eao)
     arr = np.asarray(got)
